@@ -39,6 +39,8 @@ type Ctx struct {
 	Notes   map[string]interface{}
 	Exhaustive bool
 	Rule    string
+	Scope   string // numeral scope of the cases file (default nat_scope)
+	HasKF   bool // the Eval module defines known_classes (known-finding regions re-observed)
 }
 
 func (c *Ctx) Thorough() bool { return c.Tier == "thorough" }
@@ -121,7 +123,11 @@ func (c *Ctx) flush() {
 		var sb strings.Builder
 		sb.WriteString("From Coq Require Import List NArith ZArith QArith String Ascii Bool.\nImport ListNotations.\n")
 		sb.WriteString(c.Header)
-		sb.WriteString(fmt.Sprintf("From Grip Require Import Run.%s.\nLocal Open Scope nat_scope.\n", c.EvalMod))
+		scope := c.Scope
+		if scope == "" {
+			scope = "nat_scope"
+		}
+		sb.WriteString(fmt.Sprintf("From Grip Require Import Run.%s.\nLocal Open Scope %s.\n", c.EvalMod, scope))
 		sb.WriteString(fmt.Sprintf("Definition cases : list %s := [\n", c.CaseTy))
 		for k := i; k < j; k++ {
 			sb.WriteString("  " + c.cases[k].Coq)
@@ -132,6 +138,9 @@ func (c *Ctx) flush() {
 		sb.WriteString("\n].\n")
 		sb.WriteString("Definition M := Eval vm_compute in mismatches cases.\nPrint M.\n")
 		sb.WriteString("Definition SV := Eval vm_compute in spec_violations cases.\nPrint SV.\n")
+		if c.HasKF {
+			sb.WriteString("Definition KF := Eval vm_compute in known_classes cases.\nPrint KF.\n")
+		}
 		os.WriteFile(filepath.Join(c.Out, fmt.Sprintf("cases_%d.v", nsh)), []byte(sb.String()), 0o644)
 		nsh++
 	}
